@@ -81,6 +81,42 @@ def seq1(h, c):
     return seqs.mk_bytes([c]) if h.symbolic else bytes([c])
 
 
+def body_session_peek(h):
+    """the ring as seen through PEEK in the whole interpreter (segment 0, 41Ah..43Dh)"""
+    from . import session
+    from .c19 import _geti
+    impl = session.mk_impl(h)
+    impl.execute(b'A%=0:R%=0:S%=0:E%=0')
+    buf = impl.keyboard.buf
+    n0, n = h.params['n0'], h.params['n']
+    slots = [[0, 0] for _ in range(16)]
+    for i in range(n0):
+        c = 65 + i % 26
+        buf.append(bytes([c]), 1 + i)
+        slots[i % 16] = [c, 1 + i]
+        buf.getc()
+    for j in range(n):
+        c, sc = h.int('key%d' % j, 1, 255), h.int('scan%d' % j, 0, 255)
+        buf.append(seq1(h, c), sc)
+        slots[(n0 + j) % 16] = [c, sc]
+    a = h.int('a', 0, 31)
+    session.poke_int(h, impl, b'A%', seqs_bytes(h, [a, 0]))
+    impl.execute(b'DEF SEG=0: R%=PEEK(1054+A%): S%=PEEK(1050)+256*PEEK(1051): E%=PEEK(1052)+256*PEEK(1053)')
+    h.require('no-error', impl.interpreter.error_num == 0, impl.interpreter.error_num)
+    R, S, E = _geti(impl, b'R%'), _geti(impl, b'S%'), _geti(impl, b'E%')
+    want = 0
+    for i in range(16):
+        want = ite(a == 2 * i, slots[i][0], ite(a == 2 * i + 1, slots[i][1], want))
+    h.require('peek-shows-the-ring-slot', R == want, [R])
+    h.require('head-and-tail-pointers', s_and(S == 30 + 2 * (n0 % 16), E == 30 + 2 * ((n0 + n) % 16)), [S, E])
+    return [R, S, E]
+
+
+def seqs_bytes(h, items):
+    from symx import seqs
+    return seqs.mk_bytes(items) if h.symbolic else bytes(items)
+
+
 def cases(tier):
     k = 7 if tier == 'thorough' else 5
     cs = []
@@ -88,4 +124,7 @@ def cases(tier):
         for pre in (0, 13):
             cs.append(Case('hist-n%d-p%d' % (n0, pre), body, params={'n0': n0, 'prefill': pre, 'k': k},
                            max_paths=400000, timeout_s=3000))
+    for n0, n in ((0, 0), (0, 15), (5, 3), (14, 15), (16, 1), (31, 2)):
+        cs.append(Case('session-peek-n%d-k%d' % (n0, n), body_session_peek, params={'n0': n0, 'n': n},
+                       max_fanout=100, timeout_s=900))
     return cs
